@@ -1217,8 +1217,8 @@ fn classify(e: &passage_protocol::Error) -> RunResult {
     RunResult::Err { kind, text: e.to_string() }
 }
 
-pub fn run(case: &Case) -> Obs {
-    let shared = Arc::new(Mutex::new(Shared {
+fn new_shared(case: &Case) -> Arc<Mutex<Shared>> {
+    Arc::new(Mutex::new(Shared {
         start: None,
         segs: VecDeque::new(),
         splits: case.transport.splits.clone(),
@@ -1263,81 +1263,114 @@ pub fn run(case: &Case) -> Obs {
         echo_arrivals: vec![],
         sb_frames: vec![],
         calls: vec![],
-    }));
-    let plan = Arc::new(case.adapters.clone());
-    let scripted = Arc::new(Scripted { shared: shared.clone(), plan: plan.clone() });
-    let messages: HashMap<String, HashMap<String, String>> =
-        plan.loc_messages.iter().map(|(l, m)| (l.clone(), m.iter().cloned().collect::<HashMap<_, _>>())).collect();
-    let loca = Arc::new(FixedLocalizationAdapter::new(plan.loc_default.clone(), messages));
+    }))
+}
 
+pub fn run(case: &Case) -> Obs {
+    run_many(std::slice::from_ref(case)).pop().expect("one observation")
+}
+
+/// Runs several connections in ONE runtime (one thread, one virtual clock), polled in turn by one
+/// task: whenever a connection's transport answers Pending the next connection runs. The seed of the
+/// runtime is the first case's; a panic in any connection ends the run for all of them.
+pub fn run_many(cases: &[Case]) -> Vec<Obs> {
+    let shareds: Vec<Arc<Mutex<Shared>>> = cases.iter().map(new_shared).collect();
     let rt = tokio::runtime::Builder::new_current_thread()
         .enable_time()
         .start_paused(true)
-        .rng_seed(tokio::runtime::RngSeed::from_bytes(&case.rng_seed.to_le_bytes()))
+        .rng_seed(tokio::runtime::RngSeed::from_bytes(&cases[0].rng_seed.to_le_bytes()))
         .build()
         .expect("runtime");
-    let horizon = Duration::from_millis(case.horizon_ms);
-    let sh2 = shared.clone();
-    let cfg = case.cfg.clone();
-    let mut end_ms = 0;
+    let mut results: Vec<Option<(RunResult, Ms)>> = vec![None; cases.len()];
     let outcome = std::panic::catch_unwind(std::panic::AssertUnwindSafe(|| {
         rt.block_on(async {
             let start = Instant::now();
-            sh2.lock().unwrap().start = Some(start);
-            let stream = VStream { shared: sh2.clone(), rsleep: None, wsleep: None, reads_after_eof: 0 };
             alloc::arm();
-            let mut conn = Connection::new(stream, scripted.clone(), scripted.clone(), scripted.clone(), scripted.clone(), scripted.clone(), loca.clone())
-                .with_client_address(cfg.client_addr)
-                .with_auth_secret(cfg.auth_secret.clone())
-                .with_max_packet_length(cfg.max_packet_length)
-                .with_auth_cookie_expiry(cfg.expiry);
-            let r = tokio::time::timeout(horizon, conn.listen()).await;
-            let r = match r {
-                Ok(Ok(())) => RunResult::Ok,
-                Ok(Err(e)) => classify(&e),
-                Err(_) => RunResult::Horizon,
-            };
-            end_ms = start.elapsed().as_millis() as Ms;
-            r
+            let mut futs: Vec<Pin<Box<dyn Future<Output = (RunResult, Ms)>>>> = vec![];
+            for (case, shared) in cases.iter().zip(&shareds) {
+                shared.lock().unwrap().start = Some(start);
+                let plan = Arc::new(case.adapters.clone());
+                let scripted = Arc::new(Scripted { shared: shared.clone(), plan: plan.clone() });
+                let messages: HashMap<String, HashMap<String, String>> =
+                    plan.loc_messages.iter().map(|(l, m)| (l.clone(), m.iter().cloned().collect::<HashMap<_, _>>())).collect();
+                let loca = Arc::new(FixedLocalizationAdapter::new(plan.loc_default.clone(), messages));
+                let stream = VStream { shared: shared.clone(), rsleep: None, wsleep: None, reads_after_eof: 0 };
+                let cfg = case.cfg.clone();
+                let horizon = Duration::from_millis(case.horizon_ms);
+                futs.push(Box::pin(async move {
+                    let mut conn = Connection::new(stream, scripted.clone(), scripted.clone(), scripted.clone(), scripted.clone(), scripted.clone(), loca.clone())
+                        .with_client_address(cfg.client_addr)
+                        .with_auth_secret(cfg.auth_secret.clone())
+                        .with_max_packet_length(cfg.max_packet_length)
+                        .with_auth_cookie_expiry(cfg.expiry);
+                    let r = tokio::time::timeout(horizon, conn.listen()).await;
+                    let r = match r {
+                        Ok(Ok(())) => RunResult::Ok,
+                        Ok(Err(e)) => classify(&e),
+                        Err(_) => RunResult::Horizon,
+                    };
+                    (r, start.elapsed().as_millis() as Ms)
+                }));
+            }
+            let res = &mut results;
+            std::future::poll_fn(|cx| {
+                let mut pending = false;
+                for (i, f) in futs.iter_mut().enumerate() {
+                    if res[i].is_some() {
+                        continue;
+                    }
+                    match f.as_mut().poll(cx) {
+                        Poll::Ready(v) => res[i] = Some(v),
+                        Poll::Pending => pending = true,
+                    }
+                }
+                if pending { Poll::Pending } else { Poll::Ready(()) }
+            })
+            .await;
         })
     }));
     let max_alloc = alloc::disarm();
-    let result = match outcome {
-        Ok(r) => r,
-        Err(p) => {
-            let msg = p.downcast_ref::<String>().cloned().or_else(|| p.downcast_ref::<&str>().map(|s| s.to_string())).unwrap_or_else(|| "panic".into());
-            RunResult::Panic(msg)
-        }
-    };
+    let panic_msg = outcome.err().map(|p| p.downcast_ref::<String>().cloned().or_else(|| p.downcast_ref::<&str>().map(|s| s.to_string())).unwrap_or_else(|| "panic".into()));
     drop(rt);
-    let sh = match shared.lock() {
-        Ok(g) => g,
-        Err(p) => p.into_inner(),
-    };
-    Obs {
-        packets: sh.packets.clone(),
-        garbled: sh.garbled.clone(),
-        partial_tail: sh.inbuf.len(),
-        calls: sh.calls.clone(),
-        result,
-        end_ms,
-        eof_at: sh.eof_at,
-        max_alloc,
-        emitted: sh.emitted,
-        consumed: sh.consumed,
-        wire_len: sh.wire.len(),
-        writes: sh.writes.clone(),
-        token: sh.token.clone(),
-        reads: sh.reads,
-        steps_done: sh.steps_done,
-        enc_switch_at: sh.enc_switch_at,
-        raw_wire: sh.wire.clone(),
-        step_times: sh.step_times.clone(),
-        echo_log: sh.echo_log.clone(),
-        echo_arrivals: sh.echo_arrivals.clone(),
-        sb_frames: sh.sb_frames.clone(),
-        packet_started: sh.packet_started.clone(),
-    }
+    shareds
+        .iter()
+        .zip(results)
+        .map(|(shared, r)| {
+            let (result, end_ms) = match (r, &panic_msg) {
+                (Some((r, e)), _) => (r, e),
+                (None, Some(m)) => (RunResult::Panic(m.clone()), 0),
+                (None, None) => (RunResult::Horizon, 0),
+            };
+            let sh = match shared.lock() {
+                Ok(g) => g,
+                Err(p) => p.into_inner(),
+            };
+            Obs {
+                packets: sh.packets.clone(),
+                garbled: sh.garbled.clone(),
+                partial_tail: sh.inbuf.len(),
+                calls: sh.calls.clone(),
+                result,
+                end_ms,
+                eof_at: sh.eof_at,
+                max_alloc,
+                emitted: sh.emitted,
+                consumed: sh.consumed,
+                wire_len: sh.wire.len(),
+                writes: sh.writes.clone(),
+                token: sh.token.clone(),
+                reads: sh.reads,
+                steps_done: sh.steps_done,
+                enc_switch_at: sh.enc_switch_at,
+                raw_wire: sh.wire.clone(),
+                step_times: sh.step_times.clone(),
+                echo_log: sh.echo_log.clone(),
+                echo_arrivals: sh.echo_arrivals.clone(),
+                sb_frames: sh.sb_frames.clone(),
+                packet_started: sh.packet_started.clone(),
+            }
+        })
+        .collect()
 }
 
 // =======================================================================================
